@@ -512,13 +512,28 @@ let rec dtree_str (t : dtree) : string =
       (string_of_n h) (dtree_str r)
 let nlist_str (l : n list) = if l = [] then "-" else String.concat "," (List.map string_of_n l)
 
+(* structural well-formedness only (what the property asks of the classification): no slot in two
+   classes, ranges, counts.  The reader's own d_wf additionally demands that recycled and never-used
+   records are cleared, which the model guarantees but the property does not require. *)
+let rec nodup_int (l : int list) = match l with [] -> true | x :: r -> not (List.mem x r) && nodup_int r
+let avl_struct_wf (d : doc) : bool =
+  match d.d_hdr with
+  | [_; size; cap; _; sq] ->
+    let live = List.map (fun ((i, _), _) -> int_of_n i) (d_inorder d.d_tree) in
+    let free = List.map int_of_n d.d_free in
+    let all = live @ free in
+    let lseq = if int_of_n sq = 0 then 256 else int_of_n sq in
+    nodup_int all && List.for_all (fun i -> 1 <= i && i < lseq) all
+    && List.length live = int_of_n size && List.length all = lseq - 1 && lseq <= int_of_n cap + 1
+  | _ -> false
+
 let avl_doc_str wb lay (bytes : n list) : string =
   match decode_doc wb lay bytes with
   | None -> "doc=FAIL"
   | Some d ->
     let ents = List.map (fun ((_, k), v) -> string_of_z k ^ ":" ^ string_of_z v) (d_inorder d.d_tree) in
-    Printf.sprintf "doc=%s tree=%s free=%s never=%s wf=%s bst=%s bal=%s cont=%s lv=%s"
-      (nlist_str d.d_hdr) (dtree_str d.d_tree) (nlist_str d.d_free) (nlist_str d.d_never) (tf d.d_wf)
+    Printf.sprintf "doc=%s tree=%s free=%s never=%s wf=%s clean=%s bst=%s bal=%s cont=%s lv=%s"
+      (nlist_str d.d_hdr) (dtree_str d.d_tree) (nlist_str d.d_free) (nlist_str d.d_never) (tf (avl_struct_wf d)) (tf d.d_wf)
       (tf d.d_bst) (tf d.d_bal)
       (if ents = [] then "-" else String.concat "," ents) (string_of_n (d_levels d.d_tree))
 
@@ -530,9 +545,21 @@ let hash_doc_str vt hf (bytes : n list) : string =
         if ch = [] then "-" else String.concat "," (List.map (fun (s, v) -> string_of_n s ^ ":" ^ string_of_z v) ch))
         d.hd_buckets in
     let members = zs_sort (List.concat_map (fun ch -> List.map snd ch) d.hd_buckets) in
-    Printf.sprintf "doc=%s chains=%s free=%s never=%s wf=%s cont=%s"
+    let swf = (match d.hd_hdr with
+        | [size; cap; _; sq] ->
+          let live = List.concat_map (fun ch -> List.map (fun (s, _) -> int_of_n s) ch) d.hd_buckets in
+          let all = live @ List.map int_of_n d.hd_free in
+          let vals = List.concat_map (fun ch -> List.map (fun (_, v) -> string_of_z v) ch) d.hd_buckets in
+          nodup_int all && List.for_all (fun i -> 1 <= i && i < int_of_n sq) all
+          && List.length live = int_of_n size && List.length all = int_of_n sq - 1 && int_of_n sq <= int_of_n cap + 1
+          && List.length (List.sort_uniq compare vals) = List.length vals
+          && List.for_all2 (fun b ch -> List.for_all (fun (_, v) ->
+                 int_of_n (N.modulo (N.modulo (hf v) (n_of_string "4294967296")) cap) = b) ch)
+               (List.init (List.length d.hd_buckets) (fun i -> i)) d.hd_buckets
+        | _ -> false) in
+    Printf.sprintf "doc=%s chains=%s free=%s never=%s wf=%s clean=%s cont=%s"
       (nlist_str d.hd_hdr) (String.concat "|" chains) (nlist_str d.hd_free) (nlist_str d.hd_never)
-      (tf d.hd_wf) (zlist_str members)
+      (tf swf) (tf d.hd_wf) (zlist_str members)
 
 let arr_doc_str pnat ty (bytes : n list) : string =
   match adecode_doc pnat ty bytes with
